@@ -54,7 +54,7 @@ def runFreePol (payload : String) : String × String × String :=
       let room : Option Nat := if c.cap > 0 then some ((c.cap - 1).toNat - n0) else none
       let consulted := !vals.isEmpty && (match room with | some r => r > 0 | none => true)
       let taken := match room with | some r => min r vals.length | none => vals.length
-      let line := s!"free={if consulted then "z1e0" else "-"} init=1 len={n0 + taken}"
+      let line := s!"free={if consulted then "z1e0t1" else "-"} init=1 len={n0 + taken}"
       (line, line, "")
     | _ => ("BADCASE", "BADCASE", "")
   | _ => ("BADCASE", "BADCASE", "")
